@@ -53,6 +53,70 @@ def optDelim (req : Json) : R (Option Char) := do
     | [c] => pure (some c)
     | _ => throw "delimiter must be one character"
 
+
+def getChar (req : Json) (k : String) : R Char := do
+  let d ← getStr req k
+  match d.toList with
+  | [c] => pure c
+  | _ => throw s!"{k} must be one character"
+
+/-- an acquisition from its JSON description; every token must be in the table of `float()` -/
+def parseAcq (hm : Std.HashMap String V) (req : Json) : R Acq := do
+  let samples ← getList asStr req "samples"
+  let nscans ← getNat req "nscans"
+  let elements ← getList asStr req "elements"
+  let channels ← getList asStr req "channels"
+  let toks ← fld req "tokens" >>= parseTokens
+  let value : Nat → Nat → Nat → Nat → String := fun i s e c =>
+    ((((toks[i]?).bind (·[s]?)).bind (·[e]?)).bind (·[c]?)).getD ""
+  for i in List.range samples.length do
+    for s in List.range nscans do
+      for e in List.range elements.length do
+        for c in List.range channels.length do
+          let t := value i s e c
+          if !(hm.contains t) || !(hm.contains (fixDec true t)) then throw s!"token {t} not in the parse table"
+  pure { samples := samples, nscans := nscans, elements := elements, channels := channels, value := value }
+
+def jLoadOut : LoadOut → Json
+  | .raises => jObj [("raises", jStr "error")]
+  | .data img => jObj [("image", jImg (some img))]
+  | .full img p => jObj [("image", jImg (some img)),
+                         ("params", match p with | none => jObj [] | some q => jParams (some q))]
+
+def jOut : Out → Json
+  | .fmt f => jFmt f
+  | .load r => jLoadOut r
+  | .img r => jImg r
+  | .params r => jParams r
+  | .noFile => jObj [("raises", jStr "no-file")]
+
+def optDelimOf (req : Json) (k : String) : R (Option Char) := do
+  let j ← fld req k
+  match j with
+  | .null => pure none
+  | _ => do
+    let d ← asStr j
+    match d.toList with
+    | [c] => pure (some c)
+    | _ => throw "delimiter must be one character"
+
+def parseCall (j : Json) : R Call := do
+  let fn ← getStr j "fn"
+  match fn with
+  | "sniff" => pure .sniff
+  | "load" => pure (.load (← getBool j "use_analog") (← getBool j "full"))
+  | "data" => pure (.data (← getBool j "rows") (← optDelimOf j "delimiter") (← getBool j "comma") (← getBool j "use_analog"))
+  | "params" => pure (.params (← getBool j "rows") (← optDelimOf j "delimiter") (← getBool j "comma"))
+  | _ => throw s!"unknown call {fn}"
+
+def parseContent (hm : Std.HashMap String V) (j : Json) : R Content := do
+  let kind ← getStr j "kind"
+  match kind with
+  | "other" => pure (.other (← getList asStr j "lines"))
+  | "rows" => pure (.rows (← getChar j "delimiter") (← getBool j "comma") (← parseAcq hm j))
+  | "cols" => pure (.cols (← getChar j "delimiter") (← getBool j "comma") (← parseAcq hm j))
+  | _ => throw s!"unknown content {kind}"
+
 /-- every string the external conversions can be asked about for this table -/
 def candidates (t : Table) : List String :=
   let raw := t.flatten
@@ -104,6 +168,8 @@ def handle (op : String) (req : Json) : R Json := do
     let tr ← resplit xr tr0
     let ldText := fun (lines : List String) (t0 : Table) (ua : Bool) =>
       if short then loadText x lines ua else load x delim t0 ua
+    let ldData := fun (lines : List String) (t0 : Table) (ua : Bool) =>
+      if short then loadCall x lines ua false else loadData x delim t0 ua
     let chanRes := channels.zipIdx.map (fun (ch, ci) =>
       jObj [("channel", jStr ch),
             ("rows", jImg (readRows x comma ch tr)),
@@ -122,11 +188,13 @@ def handle (op : String) (req : Json) : R Json := do
                 ("params_rows", jParams (readParams x true comma tr)),
                 ("params_cols", jParams (readParams x false comma tc)),
                 ("spec_params", specPar),
-                ("sniff_rows", jFmt (sniff tr)), ("sniff_cols", jFmt (sniff tc)),
+                ("sniff_rows", jFmt (sniffText xr)), ("sniff_cols", jFmt (sniffText xc)),
                 ("spec_sniff_rows", jFmt .rows), ("spec_sniff_cols", jFmt .columns),
                 ("other_rows", jBool (otherFile tr)), ("other_cols", jBool (otherFile tc)),
                 ("load_rows", jLoad (ldText xr tr0 false)), ("load_cols", jLoad (ldText xc tc0 false)),
-                ("load_rows_analog", jLoad (ldText xr tr0 true)), ("load_cols_analog", jLoad (ldText xc tc0 true))])
+                ("load_rows_analog", jLoad (ldText xr tr0 true)), ("load_cols_analog", jLoad (ldText xc tc0 true)),
+                ("loaddata_rows", jLoadOut (ldData xr tr0 false)), ("loaddata_cols", jLoadOut (ldData xc tc0 false)),
+                ("loaddata_rows_analog", jLoadOut (ldData xr tr0 true)), ("loaddata_cols_analog", jLoadOut (ldData xc tc0 true))])
   | "c03.sniff" =>
     -- `lines`: the lines of the decoded text; the sniffer looks for a substring of the whole line
     let lines ← getList asStr req "lines"
@@ -152,7 +220,7 @@ def handle (op : String) (req : Json) : R Json := do
       | _ => throw "bad int table entry") req "ints"
     let hi : Std.HashMap String (Option Int) := Std.HashMap.ofList ints
     let x : Ext V := { parse := fun t => ((hm.get? t).getD none), readInt := fun t => ((hi.get? t).getD none) }
-    let sn := jFmt (sniff (lines.map (fun l => [l])))
+    let sn := jFmt (sniffText lines)
     let ld := fun ua => jLoad (loadText x lines ua)
     match tableOf delim lines with
     | none =>
@@ -174,6 +242,35 @@ def handle (op : String) (req : Json) : R Json := do
                   ("cols.data.Counter", jImg (readCols x comma "Counter" t)), ("cols.data.Analog", jImg (readCols x comma "Analog" t)),
                   ("rows.params", jParams (readParams x true comma t)), ("cols.params", jParams (readParams x false comma t)),
                   ("format", sn), ("load.Counter", ld false), ("load.Analog", ld true)])
+  | "c03.decode" =>
+    -- the characters of a file (its bytes decoded as plain UTF-8, byte order mark and carriage returns still there)
+    -- -> the lines the text layer hands out (`open(path, "r", encoding="utf-8-sig")`)
+    let chars ← getStr req "chars"
+    pure (jObj [("lines", jList jStr (decodeLines chars.toList))])
+  | "c03.history" =>
+    -- a history of exports written to a few paths and of calls on them: the model reads the text the path holds at
+    -- the time of the call, the specification judges the call by what was last exported to the path
+    let hm ← parseTable req
+    let x : Ext V := { parse := fun t => ((hm.get? t).getD none), readInt := fun t => t.toInt? }
+    let contents ← getList (parseContent hm) req "contents"
+    let evs ← getList (fun j => do
+      let p ← getNat j "path"
+      match fldOpt j "call" with
+      | some c => pure (SEvent.call p (← parseCall c))
+      | none =>
+        let i ← getNat j "write"
+        match contents[i]? with
+        | some c => pure (SEvent.write p (← getNat j "mtime") c)
+        | none => throw "content index out of range") req "events"
+    for c in contents do
+      match c with
+      | .other ls => if !(otherFile (ls.map fun l => [l])) then throw "an 'other' content mentions MainRuns on line 1 or 3"
+      | _ => pure ()
+    let model := runHistory x (fun _ => none) (evs.map (SEvent.event toString))
+    let spec := specHistory x (fun _ => none) evs
+    if model.length != spec.length then throw "history: model and specification differ in length"
+    pure (jObj [("texts", jList (jList jStr) (contents.map (Content.text toString))),
+                ("results", jList (fun (p : Out × Option Out) => jObj [("model", jOut p.1), ("spec", jOpt jOut p.2)]) (model.zip spec))])
   | _ => throw s!"unknown op {op}"
 
 end PewDriver.C03
